@@ -261,10 +261,13 @@ Qed.
 (* ------------------------------------------------------------------ units: month, quarter, year *)
 Definition is_unit (u : Z) : Prop := u = U_MONTH \/ u = U_QUARTER \/ u = U_YEAR.
 (* decide the closed unit tests  U =? U'  *)
+Ltac closed_num t := match t with Z0 => idtac | Zpos xH => idtac | Zpos (xO xH) => idtac end.
 Ltac eval_units :=
-  unfold U_MONTH, U_QUARTER, U_YEAR in *;
-  repeat match goal with |- context [Zpos ?a =? ?b] => let v := eval vm_compute in (Zpos a =? b) in change (Zpos a =? b) with v
-                       | |- context [0 =? ?b] => let v := eval vm_compute in (0 =? b) in change (0 =? b) with v end;
+  repeat match goal with |- context [?a =? ?b] =>
+    let a' := eval cbv [U_MONTH U_QUARTER U_YEAR] in a in
+    let b' := eval cbv [U_MONTH U_QUARTER U_YEAR] in b in
+    closed_num a'; closed_num b';
+    let v := eval vm_compute in (a =? b) in change (a =? b) with v end;
   cbv iota.
 Definition unit_first_month (u m : Z) : Z :=
   if u =? U_MONTH then m else if u =? U_QUARTER then 3 * ((m + 2) / 3) - 2 else 1.
@@ -601,18 +604,18 @@ Proof.
   - (* month *)
     assert (Hu : is_unit U_MONTH) by (left; reflexivity).
     unfold d_nth_of, d_nth_of_month. eval_units. rewrite N1'.
-    change 0 with U_MONTH. rewrite d_first_of_none by assumption. cbn [bind].
+    rewrite d_first_of_none by assumption. cbn [bind].
     apply (nth_tail U_MONTH p n wd _ Hu Hp Hwd Hn2). intros q Wq Hs. apply body_month; assumption.
   - (* quarter *)
     assert (Hu : is_unit U_QUARTER) by (right; left; reflexivity).
     destruct (unit_months U_QUARTER (d_month p) Hu Hm) as [Hf Hl].
-    unfold d_nth_of, d_nth_of_quarter. eval_units. rewrite N1'. change 1 with U_QUARTER at 1.
+    unfold d_nth_of, d_nth_of_quarter. eval_units. rewrite N1'.
     unfold date_set_ymd at 1. rewrite py_quarter_val.
     pose proof (dim_bounds (d_year p) ((d_month p + 2) / 3 * 3)) as B.
     assert (El : (d_month p + 2) / 3 * 3 = unit_last_month U_QUARTER (d_month p)) by (unfold unit_last_month; eval_units; lia).
     rewrite date_new_ok by lia. cbn [bind]. cbv zeta. cbn [d_year d_month].
     assert (Wq : wf_date (mkdate (d_year p) ((d_month p + 2) / 3 * 3) 1)) by (apply wf_mk; lia).
-    change 1 with U_QUARTER at 1. rewrite d_first_of_none by assumption. cbn [bind].
+    rewrite d_first_of_none by assumption. cbn [bind].
     assert (Es : unit_start U_QUARTER (mkdate (d_year p) ((d_month p + 2) / 3 * 3) 1) = unit_start U_QUARTER p).
     { unfold unit_start, unit_first_month. eval_units. cbn [d_year d_month]. f_equal. lia. }
     rewrite Es, El.
@@ -620,7 +623,237 @@ Proof.
   - (* year *)
     assert (Hu : is_unit U_YEAR) by (right; right; reflexivity).
     unfold d_nth_of, d_nth_of_year. eval_units. rewrite N1'.
-    change 2 with U_YEAR at 1. rewrite d_first_of_none by assumption. cbn [bind]. cbv zeta.
+    rewrite d_first_of_none by assumption. cbn [bind]. cbv zeta.
     rewrite P_unit_start by assumption. cbn [d_year]. rewrite <- (P_unit_start U_YEAR p Hu Hp).
     apply (nth_tail U_YEAR p n wd _ Hu Hp Hwd Hn2). intros q Wq' Hs. apply body_year; assumption.
 Qed.
+
+(* ------------------------------------------------------------------ statements used by Props/C16.v (Date) *)
+Definition valid_wd (wd : Z) : Prop := 0 <= wd <= 6.
+Definition owd_ok (o : option Z) : Prop := match o with None => True | Some w => valid_wd w end.
+
+Theorem next_closed_form p wd : wf_date p -> valid_wd wd ->
+  d_next p (Some wd) = date_of_ord (date_ord p + (wd - dow p - 1) mod 7 + 1).
+Proof. intros. rewrite d_next_some by assumption. reflexivity. Qed.
+
+Theorem next_none_closed_form p : wf_date p -> d_next p None = date_of_ord (date_ord p + 7).
+Proof.
+  intros Hp. rewrite d_next_none by assumption. rewrite d_next_some; [|assumption|apply weekday0_range].
+  f_equal. unfold next_target, dow, weekday0. lia.
+Qed.
+
+Theorem next_nearest p wd q : wf_date p -> valid_wd wd -> d_next p (Some wd) = Ok q ->
+  wf_date q /\ date_ord p < date_ord q <= date_ord p + 7 /\ dow q = wd /\
+  (forall q', wf_date q' -> date_ord p < date_ord q' < date_ord q -> dow q' <> wd).
+Proof.
+  intros Hp Hwd E. rewrite d_next_some in E by assumption. apply date_of_ord_ok in E. destruct E as [R ->].
+  destruct (P_spec _ R) as [W E]. destruct (next_target_props (date_ord p) wd Hwd) as (B & Wd & Nn).
+  split; [assumption|]. rewrite E. split; [lia|]. split; [unfold dow; now rewrite E|].
+  intros q' _ Hq'. unfold dow. apply Nn. assumption.
+Qed.
+
+Theorem next_defined p wd : wf_date p -> valid_wd wd ->
+  (date_ord p + (wd - dow p - 1) mod 7 + 1 <= MAXORD -> exists q, d_next p (Some wd) = Ok q) /\
+  (MAXORD < date_ord p + (wd - dow p - 1) mod 7 + 1 -> d_next p (Some wd) = Raise E_OverflowError).
+Proof.
+  intros Hp Hwd. rewrite next_closed_form by assumption. pose proof (date_ord_range p Hp). split; intros H'.
+  - eexists. apply date_of_ord_in. unfold dow, weekday0 in *. lia.
+  - now apply date_of_ord_hi.
+Qed.
+
+Theorem next_fuel_7_suffices p o : wf_date p -> owd_ok o -> d_next p o <> Raise E_OutOfFuel.
+Proof.
+  intros Hp Ho. destruct o as [w|].
+  - rewrite d_next_some by assumption. apply date_of_ord_not_fuel.
+  - rewrite next_none_closed_form by assumption. apply date_of_ord_not_fuel.
+Qed.
+
+Theorem previous_closed_form p wd : wf_date p -> valid_wd wd ->
+  d_previous p (Some wd) = date_of_ord (date_ord p - (dow p - wd - 1) mod 7 - 1).
+Proof. intros. rewrite d_previous_some by assumption. reflexivity. Qed.
+
+Theorem previous_none_closed_form p : wf_date p -> d_previous p None = date_of_ord (date_ord p - 7).
+Proof.
+  intros Hp. change (d_previous p None) with (d_previous p (Some (dow p))).
+  rewrite d_previous_some; [|assumption|apply weekday0_range].
+  f_equal. unfold prev_target, dow, weekday0. lia.
+Qed.
+
+Theorem previous_nearest p wd q : wf_date p -> valid_wd wd -> d_previous p (Some wd) = Ok q ->
+  wf_date q /\ date_ord p - 7 <= date_ord q < date_ord p /\ dow q = wd /\
+  (forall q', wf_date q' -> date_ord q < date_ord q' < date_ord p -> dow q' <> wd).
+Proof.
+  intros Hp Hwd E. rewrite d_previous_some in E by assumption. apply date_of_ord_ok in E. destruct E as [R ->].
+  destruct (P_spec _ R) as [W E]. destruct (prev_target_props (date_ord p) wd Hwd) as (B & Wd & Nn).
+  split; [assumption|]. rewrite E. split; [lia|]. split; [unfold dow; now rewrite E|].
+  intros q' _ Hq'. unfold dow. apply Nn. assumption.
+Qed.
+
+Theorem previous_defined p wd : wf_date p -> valid_wd wd ->
+  (1 <= date_ord p - (dow p - wd - 1) mod 7 - 1 -> exists q, d_previous p (Some wd) = Ok q) /\
+  (date_ord p - (dow p - wd - 1) mod 7 - 1 < 1 -> d_previous p (Some wd) = Raise E_OverflowError).
+Proof.
+  intros Hp Hwd. rewrite previous_closed_form by assumption. pose proof (date_ord_range p Hp). split; intros H'.
+  - eexists. apply date_of_ord_in. unfold dow, weekday0 in *. lia.
+  - now apply date_of_ord_lo.
+Qed.
+
+Theorem previous_fuel_7_suffices p o : wf_date p -> owd_ok o -> d_previous p o <> Raise E_OutOfFuel.
+Proof.
+  intros Hp Ho. destruct o as [w|].
+  - rewrite d_previous_some by assumption. apply date_of_ord_not_fuel.
+  - rewrite previous_none_closed_form by assumption. apply date_of_ord_not_fuel.
+Qed.
+
+Lemma first_occ_in_unit u p wd : is_unit u -> wf_date p -> valid_wd wd ->
+  1 <= first_occ (unit_start u p) wd <= MAXORD /\ unit_start u p <= first_occ (unit_start u p) wd <= unit_end u p.
+Proof.
+  intros Hu Hp Hwd. destruct (unit_start_range u p Hu Hp). pose proof (unit_span u p Hu Hp).
+  destruct (first_occ_props (unit_start u p) wd Hwd) as (F & _). lia.
+Qed.
+
+Lemma last_occ_in_unit u p wd : is_unit u -> wf_date p -> valid_wd wd ->
+  1 <= last_occ (unit_end u p) wd <= MAXORD /\ unit_start u p <= last_occ (unit_end u p) wd <= unit_end u p.
+Proof.
+  intros Hu Hp Hwd. destruct (unit_start_range u p Hu Hp). pose proof (unit_span u p Hu Hp).
+  destruct (last_occ_props (unit_end u p) wd Hwd) as (F & _). lia.
+Qed.
+
+(* first_of(unit, wd): the least day of the unit on weekday wd *)
+Theorem first_of_least u p wd : is_unit u -> wf_date p -> valid_wd wd ->
+  exists q, d_first_of u p (Some wd) = Ok q /\ wf_date q /\ in_unit u p q /\ dow q = wd /\
+            date_ord q = unit_start u p + (wd - weekday0 (unit_start u p)) mod 7 /\
+            (forall q', wf_date q' -> in_unit u p q' -> dow q' = wd -> date_ord q <= date_ord q').
+Proof.
+  intros Hu Hp Hwd. exists (P (first_occ (unit_start u p) wd)).
+  destruct (first_occ_in_unit u p wd Hu Hp Hwd) as [R I]. destruct (P_spec _ R) as [W E].
+  destruct (first_occ_props (unit_start u p) wd Hwd) as (_ & Wd & Least).
+  split; [now apply d_first_of_some|]. split; [assumption|].
+  split; [apply (in_unit_ord u p _ Hu Hp W); rewrite E; assumption|].
+  split; [unfold dow; now rewrite E|]. split; [exact E|].
+  intros q' W' I' D'. rewrite E. apply Least; [|exact D'].
+  apply (in_unit_ord u p q' Hu Hp W') in I'. lia.
+Qed.
+
+(* first_of(unit): the first day of the unit *)
+Theorem first_of_none_is_first_day u p : is_unit u -> wf_date p ->
+  exists q, d_first_of u p None = Ok q /\ wf_date q /\ in_unit u p q /\ date_ord q = unit_start u p /\
+            (forall q', wf_date q' -> in_unit u p q' -> date_ord q <= date_ord q').
+Proof.
+  intros Hu Hp. exists (P (unit_start u p)). destruct (unit_start_range u p Hu Hp) as [Rs Re].
+  pose proof (unit_span u p Hu Hp). destruct (P_spec (unit_start u p) ltac:(lia)) as [W E].
+  split; [now apply d_first_of_none|]. split; [assumption|].
+  split; [apply (in_unit_ord u p _ Hu Hp W); rewrite E; lia|]. split; [exact E|].
+  intros q' W' I'. rewrite E. apply (in_unit_ord u p q' Hu Hp W') in I'. lia.
+Qed.
+
+Theorem last_of_greatest u p wd : is_unit u -> wf_date p -> valid_wd wd ->
+  exists q, d_last_of u p (Some wd) = Ok q /\ wf_date q /\ in_unit u p q /\ dow q = wd /\
+            date_ord q = unit_end u p - (weekday0 (unit_end u p) - wd) mod 7 /\
+            (forall q', wf_date q' -> in_unit u p q' -> dow q' = wd -> date_ord q' <= date_ord q).
+Proof.
+  intros Hu Hp Hwd. exists (P (last_occ (unit_end u p) wd)).
+  destruct (last_occ_in_unit u p wd Hu Hp Hwd) as [R I]. destruct (P_spec _ R) as [W E].
+  destruct (last_occ_props (unit_end u p) wd Hwd) as (_ & Wd & Greatest).
+  split; [now apply d_last_of_some|]. split; [assumption|].
+  split; [apply (in_unit_ord u p _ Hu Hp W); rewrite E; assumption|].
+  split; [unfold dow; now rewrite E|]. split; [exact E|].
+  intros q' W' I' D'. rewrite E. apply Greatest; [|exact D'].
+  apply (in_unit_ord u p q' Hu Hp W') in I'. lia.
+Qed.
+
+Theorem last_of_none_is_last_day u p : is_unit u -> wf_date p ->
+  exists q, d_last_of u p None = Ok q /\ wf_date q /\ in_unit u p q /\ date_ord q = unit_end u p /\
+            (forall q', wf_date q' -> in_unit u p q' -> date_ord q' <= date_ord q).
+Proof.
+  intros Hu Hp. exists (P (unit_end u p)). destruct (unit_start_range u p Hu Hp) as [Rs Re].
+  pose proof (unit_span u p Hu Hp). destruct (P_spec (unit_end u p) ltac:(lia)) as [W E].
+  split; [now apply d_last_of_none|]. split; [assumption|].
+  split; [apply (in_unit_ord u p _ Hu Hp W); rewrite E; lia|]. split; [exact E|].
+  intros q' W' I'. rewrite E. apply (in_unit_ord u p q' Hu Hp W') in I'. lia.
+Qed.
+
+(* nth_of: success exactly when first + 7 (n - 1) is still inside the unit, and then it is that date *)
+Theorem nth_of_ok_iff u p n wd q : is_unit u -> wf_date p -> valid_wd wd -> 1 <= n ->
+  (d_nth_of u p n wd = Ok q <->
+   (wf_date q /\ in_unit u p q /\ date_ord q = first_occ (unit_start u p) wd + 7 * (n - 1))).
+Proof.
+  intros Hu Hp Hwd Hn. rewrite d_nth_of_spec by assumption. unfold nth_result, nth_target.
+  destruct (first_occ_in_unit u p wd Hu Hp Hwd) as [R I]. destruct (unit_start_range u p Hu Hp) as [Rs Re].
+  set (t := first_occ (unit_start u p) wd + 7 * (n - 1)) in *.
+  destruct (t <=? unit_end u p) eqn:C.
+  - destruct (P_spec t ltac:(lia)) as [W E]. split.
+    + intros H. inversion H; subst q. split; [assumption|]. split; [|assumption].
+      apply (in_unit_ord u p _ Hu Hp W). lia.
+    + intros (Wq & Iq & Eq). f_equal. apply wf_date_inj; try assumption. lia.
+  - split.
+    + destruct (t <=? MAXORD); discriminate.
+    + intros (Wq & Iq & Eq). apply (in_unit_ord u p q Hu Hp Wq) in Iq. lia.
+Qed.
+
+(* the result is on weekday wd and exactly n - 1 weeks after the first occurrence (which first_of returns) *)
+Theorem nth_of_weekday u p n wd q : is_unit u -> wf_date p -> valid_wd wd -> 1 <= n ->
+  d_nth_of u p n wd = Ok q -> dow q = wd /\
+  exists q1, d_first_of u p (Some wd) = Ok q1 /\ date_ord q = date_ord q1 + 7 * (n - 1).
+Proof.
+  intros Hu Hp Hwd Hn H. apply (nth_of_ok_iff u p n wd q Hu Hp Hwd Hn) in H. destruct H as (W & I & E).
+  destruct (first_occ_props (unit_start u p) wd Hwd) as (_ & Wd & _).
+  split.
+  - unfold dow. rewrite E. unfold weekday0 in *. lia.
+  - exists (P (first_occ (unit_start u p) wd)). split; [now apply d_first_of_some|].
+    destruct (first_occ_in_unit u p wd Hu Hp Hwd) as [R _]. rewrite (proj2 (P_spec _ R)). exact E.
+Qed.
+
+(* "raises PendulumException when the unit holds fewer than n": true whenever the n-th occurrence would still be a date *)
+Theorem nth_of_exception_kind_partial u p n wd : is_unit u -> wf_date p -> valid_wd wd -> 1 <= n ->
+  unit_end u p < first_occ (unit_start u p) wd + 7 * (n - 1) <= MAXORD ->
+  d_nth_of u p n wd = Raise E_PendulumException.
+Proof.
+  intros Hu Hp Hwd Hn H. rewrite d_nth_of_spec by assumption. unfold nth_result, nth_target.
+  destruct (_ <=? unit_end u p) eqn:C; [lia|]. destruct (_ <=? MAXORD) eqn:C'; [reflexivity|lia].
+Qed.
+
+(* ... and false at the upper edge of the range: OverflowError instead (finding nth-of-overflow-at-max-year) *)
+Theorem nth_of_exception_kind_refuted :
+  exists u p n wd, is_unit u /\ wf_date p /\ valid_wd wd /\ 1 <= n /\
+    unit_end u p < first_occ (unit_start u p) wd + 7 * (n - 1) /\
+    d_nth_of u p n wd = Raise E_OverflowError.
+Proof.
+  exists U_MONTH, (mkdate 9999 12 1), 5, 0. unfold is_unit, wf_date, valid_wd.
+  repeat split; try (left; reflexivity); try (vm_compute; congruence); try lia.
+Qed.
+
+Theorem nth_of_overflow_iff u p n wd : is_unit u -> wf_date p -> valid_wd wd -> 1 <= n ->
+  (d_nth_of u p n wd = Raise E_OverflowError <-> MAXORD < first_occ (unit_start u p) wd + 7 * (n - 1)).
+Proof.
+  intros Hu Hp Hwd Hn. rewrite d_nth_of_spec by assumption. unfold nth_result, nth_target.
+  destruct (unit_start_range u p Hu Hp) as [Rs Re].
+  destruct (_ <=? unit_end u p) eqn:C; [split; [discriminate|lia]|].
+  destruct (_ <=? MAXORD) eqn:C'; split; try discriminate; try lia. reflexivity.
+Qed.
+
+(* the whole range below year 9999 is safe for every n that the year can ask for *)
+Theorem nth_of_no_overflow_before_9999 u p n wd : is_unit u -> wf_date p -> valid_wd wd -> 1 <= n <= 54 ->
+  d_year p <= 9998 -> d_nth_of u p n wd <> Raise E_OverflowError.
+Proof.
+  intros Hu Hp Hwd Hn Hy H. apply (nth_of_overflow_iff u p n wd Hu Hp Hwd ltac:(lia)) in H.
+  destruct (first_occ_props (unit_start u p) wd Hwd) as (F & _).
+  destruct (wf_fields p Hp) as (Hy' & Hm & Hd). destruct (unit_months u (d_month p) Hu Hm) as [Hf Hl].
+  assert (V1 : valid_dateb (d_year p) (unit_first_month u (d_month p)) 1 = true).
+  { apply valid_dateb_true. pose proof (dim_bounds (d_year p) (unit_first_month u (d_month p))). lia. }
+  assert (V2 : valid_dateb 9998 12 1 = true) by reflexivity.
+  pose proof (ymd2ord_le _ _ _ _ _ _ V1 V2 ltac:(lia)) as L.
+  unfold unit_start in *. assert (ymd2ord 9998 12 1 = MAXORD - 395) by reflexivity. lia.
+Qed.
+
+(* n <= 0: the loop does not run and the first day of the unit is returned, whatever its weekday *)
+Theorem nth_of_nonpositive_refuted :
+  exists u p n wd q, is_unit u /\ wf_date p /\ valid_wd wd /\ n <= 0 /\ d_nth_of u p n wd = Ok q /\ dow q <> wd.
+Proof.
+  exists U_MONTH, (mkdate 2024 5 17), 0, 0, (mkdate 2024 5 1). unfold is_unit, wf_date, valid_wd.
+  repeat split; try (left; reflexivity); try (vm_compute; congruence); try lia.
+Qed.
+
+(* satisfiability of the hypotheses *)
+Example wf_example : wf_date (mkdate 2024 2 29) /\ is_unit U_QUARTER /\ valid_wd 3.
+Proof. unfold wf_date, is_unit, valid_wd. cbn [d_year d_month d_day]. repeat split; try (right; left; reflexivity); try reflexivity; try lia. Qed.
